@@ -49,6 +49,15 @@ struct Step {
     uint64_t seed = 0;
     unsigned drop = 0;      // F1: permille of hits dropped inside this step
     unsigned dropk = 0;     // F1 sweep: drop exactly the k-th hit (1-based)
+    // Stable naming for minimisation.  uid: position in the plan as generated
+    // (kept when other steps are deleted); edges created by a step are named
+    // after its uid.  bind[i] / fbind[i]: the edge / forest the i-th operand
+    // choice of this step resolved to when the plan was first executed; when
+    // present (and still a legal candidate) it overrides the modulo choice, so
+    // deleting an unrelated step does not re-route later steps.
+    int uid = -1;
+    int bind[6] = {0,0,0,0,0,0};
+    int fbind[4] = {0,0,0,0};
 };
 
 struct Plan {
